@@ -170,6 +170,8 @@ def run(ctx, model_ok):
             table, kind = {}, 'empty'
         hist = [[t, c, q, [0, 0, 0, 0]] for t, c, q, _ in hist]
         recs = [D.record(j + 1, ws, t, c | q) for j, (t, c, q, ws) in enumerate(hist)]
+        # what the records say (C01): the event id is the debug id without its two qualifier bits
+        hist = [[t, (c | q) & 0xfffffffc, (c | q) & 3, ws] for t, c, q, ws in hist]
         api.append((table, hist, kind, D.build_v2([(1, 1, b'p')], 0, recs)))
     cfg = {'show_timestamp': False, 'show_func_qual': False, 'show_tid': False, 'show_process': False, 'show_args': False,
            'color': False}
